@@ -757,6 +757,13 @@ jinit_c_master_control(j_compress_ptr cinfo, boolean transcode_only)
     cinfo->raw_data_in = FALSE;
     cinfo->smoothing_factor = 0;
     jpeg_default_colorspace(cinfo);
+#ifdef NEED_SCAN_SCRIPT
+    /* jpeg_default_colorspace() may have changed the number of components, so
+     * the scan script must be checked against the new component list.
+     */
+    if (cinfo->scan_info != NULL)
+      validate_script(cinfo);
+#endif
     for (ci = 0, compptr = cinfo->comp_info; ci < cinfo->num_components;
          ci++, compptr++)
       compptr->h_samp_factor = compptr->v_samp_factor = 1;
